@@ -10,6 +10,7 @@ import (
 	"os"
 	"path/filepath"
 	"strings"
+	"sync"
 	"time"
 
 	"github.com/bmeg/grip/config"
@@ -51,6 +52,29 @@ type GripServer struct {
 	sources  map[string]gripper.GRIPSourceClient
 	baseDir  string
 	jStorage jobstorage.JobStorage
+	mu       sync.RWMutex //guards dbs, graphMap, schemas, plugins and sources: handlers run concurrently
+}
+
+// drivers returns a snapshot of the driver table
+func (server *GripServer) drivers() map[string]gdbi.GraphDB {
+	server.mu.RLock()
+	defer server.mu.RUnlock()
+	out := make(map[string]gdbi.GraphDB, len(server.dbs))
+	for k, v := range server.dbs {
+		out[k] = v
+	}
+	return out
+}
+
+// sourceClients returns a snapshot of the plugin source table
+func (server *GripServer) sourceClients() map[string]gripper.GRIPSourceClient {
+	server.mu.RLock()
+	defer server.mu.RUnlock()
+	out := make(map[string]gripper.GRIPSourceClient, len(server.sources))
+	for k, v := range server.sources {
+		out[k] = v
+	}
+	return out
 }
 
 // NewGripServer initializes a GRPC server to connect to the graph store
@@ -141,6 +165,8 @@ func StartDriver(d config.DriverConfig, sources map[string]gripper.GRIPSourceCli
 }
 
 func (server *GripServer) getGraphDB(graph string) (gdbi.GraphDB, error) {
+	server.mu.RLock()
+	defer server.mu.RUnlock()
 	if driverName, ok := server.graphMap[graph]; ok {
 		if gdb, ok := server.dbs[driverName]; ok {
 			return gdb, nil
@@ -402,13 +428,15 @@ func (server *GripServer) Serve(pctx context.Context) error {
 	log.Infoln("HTTP proxy connecting to localhost:" + server.conf.Server.HTTPPort)
 
 	// load existing schemas from db
-	for _, gdb := range server.dbs {
+	for _, gdb := range server.drivers() {
 		for _, graph := range gdb.ListGraphs() {
 			if isSchema(graph) {
 				log.WithFields(log.Fields{"graph": graph}).Debug("Loading existing schema into cache")
 				schema, err := server.getGraph(graph)
 				if err == nil {
+					server.mu.Lock()
 					server.schemas[strings.TrimSuffix(graph, schemaSuffix)] = schema
+					server.mu.Unlock()
 				}
 			} else if isMapping(graph) {
 				log.WithFields(log.Fields{"graph": graph}).Debug("Loading existing mapping into cache")
@@ -438,7 +466,7 @@ func (server *GripServer) Serve(pctx context.Context) error {
 	}
 
 	log.Infoln("closing database...")
-	for _, gdb := range server.dbs {
+	for _, gdb := range server.drivers() {
 		err = gdb.Close()
 		if err != nil {
 			log.Errorln("db.Close() error:", err)
